@@ -4,7 +4,7 @@
    regenerates from util/pcqueue.hh.  P producers, C consumers, capacity k, item lists and schedules are all
    universally quantified; `reachable k items counts s` = some schedule leads from the constructor's state to s. *)
 From Coq Require Import List Arith.
-From Kenlm Require Import C17.PCQueueOps Gen.PCQueueProg C17.PCQueueModel C17.PCQueueProofs C17.PoolModel C17.PoolProofs C17.ChainModel C17.ChainProofs.
+From Kenlm Require Import C17.PCQueueOps Gen.PCQueueProg C17.PCQueueModel C17.PCQueueProofs C17.PoolModel C17.PoolProofs C17.ChainModel C17.ChainProofs C17.LifeModel C17.LifeProofs.
 Import ListNotations.
 
 (* The source still performs exactly the expected synchronisation operations, in the expected order, on the
@@ -172,3 +172,30 @@ Proof. exact run_i_is_run. Qed.
 Theorem C17_chain_source_alone_never_blocks : forall b payloads fs, fs <> [] -> length payloads + 1 <= b ->
   exists c, chain_run b (repeat TSrc (2 * (length payloads + 1))) (chain_init b payloads fs) = Some c /\ sphs c = SDone.
 Proof. exact source_alone_never_blocks. Qed.
+
+(* ---- configuration and life cycle of a Chain (C17/LifeModel.v; tied by executing the same op sequences on the real Chain) ---- *)
+
+(* Chain::Chain accepts a configuration only with a positive block size that is a multiple of the entry size and fits the budget
+   block_count times; a budget below one entry per block is refused (ChainConfigException) *)
+Theorem C17_chain_block_size : forall es bc total bs, chain_block_size es bc total = Some bs ->
+  0 < bs /\ (exists k, 0 < k /\ bs = k * es) /\ bs * bc <= total /\ 0 < es /\ 0 < bc.
+Proof. exact block_size_sound. Qed.
+Theorem C17_chain_config_refused : forall es bc total, total < es * bc -> chain_block_size es bc total = None.
+Proof. exact block_size_refuses. Qed.
+
+(* after Wait() the chain is empty (no queue, no chain-owned thread, no block in flight) whatever was done before,
+   including rounds in which the chain owned no thread at all *)
+Theorem C17_chain_wait_empties : forall bc ops, let l := life_step bc (life_run bc ops life_init) LWait in
+  lqueues l = 0 /\ lrunning l = false /\ lthreads l = 0 /\ lcomplete l = false /\ linflight l = 0.
+Proof. exact wait_empties. Qed.
+
+(* Start(), also on a chain that is still running, waits for it and leaves exactly a fresh lead queue with block_count blocks *)
+Theorem C17_chain_start_fresh : forall bc ops, let l0 := life_run bc ops life_init in let l := life_step bc l0 LStart in
+  lqueues l = 1 /\ lthreads l = 0 /\ lcomplete l = false /\ linflight l = bc /\ lmade l = lmade l0 ++ [bc].
+Proof. exact start_fresh. Qed.
+
+(* reuse: the next round after a Wait() starts from fresh queues (chain_init), so by C17_chain it delivers exactly its own entries *)
+Theorem C17_chain_reuse_starts_fresh : forall bc ops o, o = LAddOutside \/ o = LAddWorker ->
+  let l0 := life_step bc (life_run bc ops life_init) LWait in let l := life_step bc l0 o in
+  lqueues l = 2 /\ linflight l = bc /\ lmade l = lmade l0 ++ [bc; bc].
+Proof. exact reuse_starts_fresh. Qed.
